@@ -2,6 +2,8 @@
 
 package verifhook
 
+import "time"
+
 // Enabled reports whether the instrumentation is compiled in.
 const Enabled = false
 
@@ -30,3 +32,6 @@ func WrapFile(path string, f File) File { return f }
 // Evict reports that the max-memory logic is about to evict key from database db
 // with the given usage figure and limit.
 func Evict(db int, key string, memUsed int64, limit uint64) {}
+
+// ClockOffset is what the harness adds to the wall clock (a stepped or skewed clock); zero in ordinary builds.
+func ClockOffset() time.Duration { return 0 }
